@@ -459,7 +459,57 @@ def dtype_rule(check):
         check.ok("DTYPE-FOLLOW", "%d flux kernels" % n, "no result buffer inherits the dtype of the input states while receiving floating-point values; built-in example: 1 truncating store reported, 2 safe twins silent")
 
 
+# ---------------------------------------------------------------------------------------------
+# constructor parameters that are accepted and never used: the object does not depend on what the
+# caller asked for (a keyword no longer forwarded to the base constructor).  Which property that
+# breaks depends on the parameter.
+CTOR_PARAM_PROPS = [
+    (r"modelphy\..*", "source", {"C19"}),
+    (r"modelphy\..*", None, {"C02", "C10", "C13", "C16", "C17", "C18"}),
+    (r"mesh|mesh2d|meshbase", None, {"C20"}),
+    (r"xnum", None, {"C11", "C04"}),
+]
+
+
+def ctor_params(check):
+    import ast
+    pid, proj = check.pid, check.proj
+    n = bad = 0
+    for ci in proj.all_classes():
+        f = ci.methods.get("__init__")
+        if f is None:
+            continue
+        props = None
+        for modpat, pname, ps in CTOR_PARAM_PROPS:
+            if re.fullmatch(modpat, ci.module.short):
+                props = (pname, ps) if props is None else props
+        if not any(re.fullmatch(modpat, ci.module.short) and pid in ps for modpat, pname, ps in CTOR_PARAM_PROPS):
+            continue
+        used = {x.id for x in ast.walk(f.node) if isinstance(x, ast.Name)}
+        has_kwargs = f.node.args.kwarg is not None
+        for prm in f.params[1:]:
+            # the most specific entry for this parameter decides which properties report it
+            owners = None
+            for modpat, pname, ps in CTOR_PARAM_PROPS:
+                if re.fullmatch(modpat, ci.module.short) and pname == prm:
+                    owners = ps
+            if owners is None:
+                for modpat, pname, ps in CTOR_PARAM_PROPS:
+                    if re.fullmatch(modpat, ci.module.short) and pname is None:
+                        owners = ps
+            if owners is None or pid not in owners:
+                continue
+            n += 1
+            if prm not in used and not has_kwargs:
+                bad += 1
+                check.violation("CTOR-PARAM", f.qualname, "constructor parameter `%s` is accepted but never used (not stored, not forwarded to a base constructor): the object silently keeps the default whatever the caller passes" % prm,
+                                "%s:%d" % (f.module.relpath, f.node.lineno), key="unused-" + prm)
+    if n and not bad:
+        check.ok("CTOR-PARAM", "%d constructor parameters" % n, "every constructor parameter in the scope of this property is used (stored or forwarded)")
+
+
 def run(check):
+    check.guarded("CTOR-PARAM", "constructors", lambda: ctor_params(check))
     check.guarded("DTYPE-FOLLOW", "flux kernels", lambda: dtype_rule(check))
     check.guarded("STATE-MEMO", "scope of %s" % check.pid, lambda: state_memo(check))
     check.guarded("ALIAS", "scope of %s" % check.pid, lambda: alias_rules(check))
